@@ -73,6 +73,37 @@ def sweep(rep, conn, transport, handle, cid, lengths):
                 for clause, detail in probs[:2]:
                     rep.violation(f"sweep/{transport}/raw-packet/{clause}", f"conn {conn} {transport} packet class sent directly with added bytes {extra!r}: {detail}",
                                   {"kind": "sweep", "conn": conn, "transport": transport, "handle": handle, "cid": cid, "n": 0})
+        # a request object kept by the application and sent again on the driver's NEXT session / connection: the frame carries the handle and
+        # connection id that are valid now
+        if transport in ("connected", "ucmm"):
+            from pycomm3.packets import SendUnitDataRequestPacket, SendRRDataRequestPacket
+
+            pkt = SendUnitDataRequestPacket(d._sequence) if transport == "connected" else SendRRDataRequestPacket()
+            pkt.add(b"\x0e\x03\x20\x99\x24\x01\x30\x01")
+            if transport == "connected":
+                call(d.generic_message, service=0x0E, class_code=0x99, instance=1)  # makes sure the connection is open
+            o1 = call(d.send, pkt)
+            call(d.close)
+            # the next session and connection get other identifiers than the ones just given up
+            pol.session_handles = [handle ^ 0x5A5A0001 or 0x77]
+            pol.conn_ids = [cid ^ 0x00A50F01]
+            e0 = len(t.events)
+            call(d.open)
+            if transport == "connected":
+                call(d.generic_message, service=0x0E, class_code=0x99, instance=1)
+            m0 = len(w.messages)
+            o2 = call(d.send, pkt)
+            probs = [(tag[4:], detail) for tag, detail in t.events[e0:] if tag.startswith("C11")]
+            for msg in w.messages[m0:]:
+                ln = W.frame_len(msg)
+                if ln is None or ln != len(msg):
+                    probs.append(("frame/length-field", f"{len(msg)} bytes written, header length field implies {ln}"))
+            if o2[0] not in ("ok", "pycomm"):
+                probs.append(("exception", repr(o2)[:100]))
+            rep.case((conn, transport, handle, cid, "resend"), outcome="ok" if not probs else probs[0][0])
+            for clause, detail in probs[:2]:
+                rep.violation(f"sweep/{transport}/request-object-sent-again/{clause}", f"conn {conn} {transport}: a request packet sent, the driver closed and opened again, the same packet object sent again: {detail}",
+                              {"kind": "sweep", "conn": conn, "transport": transport, "handle": handle, "cid": cid, "n": 0})
         call(d.close)
         rep.add("states", len(w.messages))
         for clause, detail in frame_violations(w, t):
